@@ -65,6 +65,8 @@ class P(Prop):
         ("TracklibVerif.Props.C19Layout", "TV.C19.add_collection_by_name", "addCollectionToRaster depends on the tracks only through their positions and their values BY NAME for the features of the bands (any scalar type, floats included; any raster state, failing calls included)"),
         ("TracklibVerif.Props.C19Layout", "TV.C19.track_layout_sound", "a track whose features are built by ANY script of createAnalyticalFeature / removeAnalyticalFeature / setObsAnalyticalFeature calls on the concrete table (dictionary of ranks + Obs.features): what is read through the ranks is the table's content by name after the same script; one value per observation for every feature; no name twice"),
         ("TracklibVerif.Props.C19Layout", "TV.C19.add_collection_layout_independent", "two collections whose tracks were built by different scripts (creation order, extra / temporary / re-created features) with the same content by name are scattered alike: same raster state, same outcome"),
+        ("TracklibVerif.Props.C19", "TV.C19.computed_bands_persist", "computeAggregates is the only call that writes into a band: after ANY other calls on a raster in any state (setNoDataValue with any value, any number of times; addAFMap; addCollectionToRaster; failing calls included) the geometry is the same, every band of before is still there, in place, with the very grid it held, the bands added since have new names, getAFMap(name) returns what it returned"),
+        ("TracklibVerif.Props.C19", "TV.C19.session_spec_after_setters", "session_spec read later: after its computeAggregates, then any calls other than computeAggregates (setNoDataValue to 0 / a count / a value a cell really holds, several times in a row; addAFMap), EVERY band it wrote still holds its operator over exactly the located values of T; a cell without value: 0 for count / sum, otherwise the no-data value the raster had AT that computeAggregates, not the current one"),
         ("TracklibVerif.Props.C19", "TV.C19.compute_failing_bands", "a failing computeAggregates: the bands before the first band that raises are rewritten, that band and the following ones are exactly as they were, nothing else of the raster changes"),
     ]
     partial = []
@@ -80,7 +82,7 @@ class P(Prop):
                 "the bands (AFMap.__init__ name / grid checks, addAFMap with and without grid, getNamesOfAFMap order), collectionValuesGrid (absent before the first collection), "
                 "addCollectionToRaster (features = band names up to '#', the dictionary REPLACED, AnalyticalFeatureError test after the replacement, scatter loop "
                 "track x feature x observation with Python list indexing, TypeError on an observation outside the grid leaving the partial scatter), computeAggregates (bands in "
-                "insertion order, IndexError / AttributeError / KeyError / NameError at the first cell of a band, NaN -> the raster's current no-data value, None included — fix 279f7b2), get/setNoDataValue; "
+                "insertion order, IndexError / AttributeError / KeyError / NameError at the first cell of a band, NaN -> the raster's current no-data value, None included — fix 279f7b2), get/setNoDataValue (the setter stores the value and touches no band), getAFMap(name) (getBand); "
                 "algo/summarising.py summarize (argument checks, bounding box, one addAFMap per (feature, operator) in call order via AFMap.getMeasureName, add, compute); "
                 "core/track.py hasAnalyticalFeature / getObsAnalyticalFeature for uid, x, y, idx and the track's own features, read through the track's OWN dictionary of ranks: "
                 "the feature table of a track (Model/RasterLayout.lean on the table model of C01, Model/Features.lean: __analyticalFeaturesDico + Obs.features, createAnalyticalFeature(name, list), "
@@ -99,6 +101,8 @@ class P(Prop):
             "(extent of zero width / height: one column / one row); "
             "every sequence of 1..5 calls from {addAFMap(v#co_count), addCollectionToRaster(c0), addCollectionToRaster(c1), computeAggregates} on ONE raster "
             "(thorough: 1..6 calls, addAFMap(w#co_median) too); "
+            "every sequence of 1..3 calls from {setNoDataValue(0), setNoDataValue(1), setNoDataValue(-99999.0), setNoDataValue(None), computeAggregates} on a raster whose bands "
+            "(v#co_count, v#co_min, w#co_sum, w#co_avg; cells holding genuine 0, 1, -1, -99999.0) have just been computed, constructor novalue in {default, 0, 1, None}; "
             "random: 1..3 tracks on a half-integer lattice (cell borders, outer border, corners; 1 in 4 collections lies on one vertical or horizontal line or at a single position), square and non-square resolutions, margins 0/0.125/0.25/0.5 at Rat "
             "and 0.05/0.1/0.3 at Float, random float coordinates at Float (1 in 6 on one line / at one position); two features v, w with NaN plus uid; "
             "ONE summarize call per case with several (feature, operator) pairs in a generated order (all six operators on v shuffled, or 2..4 operators on v "
@@ -107,10 +111,14 @@ class P(Prop):
             "SESSIONS on one Raster object (Rat lattice and Float): 2..3 collections over one study area (tracks with 0..5 observations, a track may lack w), the raster built on an explicit "
             "box / on collection 0's bounding box / returned by summarize() / on a box too small; templates reuse (bands, then add+compute for 2..3 collections), summ-reuse (another "
             "collection scattered on the raster summarize returned), late-band (bands added after a pass, for scattered and for new features), change (feature values rewritten between add and "
-            "compute and before a second add), two-rasters (two rasters from the SAME Bbox object), nodata (Raster(novalue=x | None), setNoDataValue before the bands / between add and compute / between two computes; 1 in 4 of the other sessions has its own novalue too), errors (compute before add, names taken / empty / without '#' / unknown operator, explicit "
+            "compute and before a second add), two-rasters (two rasters from the SAME Bbox object), nodata (Raster(novalue=x | None), setNoDataValue before the bands / between add and compute / between two computes; 1 in 4 of the other sessions has its own novalue too), remark (the no-data value changed AFTER computeAggregates / on the raster summarize() returned: 1..3 setNoDataValue calls in a row, then possibly addAFMap + setNoDataValue, "
+            "another computeAggregates + setNoDataValue, another collection; the constructor's novalue and the new values drawn from markers that COLLIDE with genuine aggregates: 0 (count / sum of every cell "
+            "without value), 1, 2, -1, values the feature takes, their sum, the uid, the default marker, None), errors (compute before add, names taken / empty / without '#' / unknown operator, explicit "
             "grids of right and wrong shape, observations outside), soup (3..9 random calls incl. summarize in scalar / callable / duplicated / ragged / empty argument forms, features x, y, idx); "
             "after every call the whole object state (geometry, no-data, every band, collectionValuesGrid) is compared with the model (the bands as a set of named grids: their order is not part of the property); the oracle checks, after every well-formed "
             "addCollectionToRaster, the footprint of every observation's cell and the values kept per cell, and after every computeAggregates EVERY band against the collection scattered LAST; "
+            "after every setNoDataValue / addAFMap that follows a validated computeAggregates or summarize the bands it wrote are read AGAIN: a cell with values holds its aggregate, a cell without "
+            "holds 0 for count / sum and, otherwise, the marker of the call that wrote the band or the raster's current one (the statement says 'the no-data value': both are accepted), counts still sum to the number of non-NaN values; "
             "FEATURE LAYOUTS: the rank of a feature in Obs.features is per track; half of the generated collections (summarize cases of every stream and sessions) give every track its own "
             "layout script — the features created in another order, an extra feature 'aux' created before / between them and kept, a temporary feature removed after others were created (their ranks move down), "
             "a feature removed and created again (now the last one) — so that the summarised feature has different ranks on the tracks of one collection (about 1 collection in 4); filler values of the extra "
@@ -155,6 +163,8 @@ class P(Prop):
                 "a feature removed and created again), as one summarize call and as addAFMap* / addCollectionToRaster / computeAggregates on one raster" % len(LAYOUTS),
                 "one summarize call with every ordered pair (30) and every ordered triple (120) of distinct operators on the same feature, fixed collection with NaN-free, mixed and all-NaN cells",
                 "every ordered pair (36, including the same operator twice) of cell operators called in sequence on one list, for 6 fixed lists",
+                "every sequence of 1..3 calls from {setNoDataValue(0), setNoDataValue(1), setNoDataValue(-99999.0), setNoDataValue(None), computeAggregates} after "
+                "addAFMap x 4, addCollectionToRaster, computeAggregates on a raster built with novalue default / 0 / 1 / None (620 sessions), the bands read again after every call",
                 "every sequence of 1..%d calls from {addAFMap(v#co_count), %saddCollectionToRaster(c0), addCollectionToRaster(c1), computeAggregates} on one raster over [0,2]^2 with unit cells (%d sessions), "
                 "the whole object state compared after every call" % ((5, "", 1364) if tier == "quick" else (6, "addAFMap(w#co_median), ", 19530))]
 
@@ -207,6 +217,7 @@ class P(Prop):
                 for b in OPS:
                     out.append({"kind": "op", "mode": "q", "vals": vals, "order": [a, b]})
         out += list(self.session_enum(tier))
+        out += list(self.remark_enum())
         nrand = 2500 if tier == "quick" else 40000
         for _ in range(nrand // 2):
             out.append(self.session(rng, "q"))
@@ -1057,13 +1068,25 @@ class P(Prop):
                         if t["pts"] and t["f"] and rng.random() < 0.7:
                             t["layout"] = self.rand_layout(rng, list(t["f"]))
                 yield c
+            yield from self.remark_variants(case, rng)
         for _ in range(10):
             yield self.lattice(rng, "q")
         for _ in range(10):
             yield self.session(rng, "q")
         for _ in range(6):
+            yield self.session(rng, rng.choice(["q", "q", "f"]), tpl="remark")
+        for _ in range(6):
             yield self.nearint(rng)
             yield self.micro(rng, rng.choice(["q", "f"]))
+
+    def search_cases(self, rng):
+        """failing-input search: the call sequences that read the bands again after setNoDataValue first, then the thorough generator"""
+        out = list(self.remark_enum())
+        for _ in range(400):
+            out.append(self.session(rng, rng.choice(["q", "q", "f"]), tpl="remark"))
+        for _ in range(200):
+            out.append(self.session(rng, "q", tpl="nodata"))
+        return out + list(self.cases(rng, "thorough"))
 
     # ================================================================ sessions: sequences of calls on ONE raster object
     # case: {"kind": "session", "mode": q|f, "colls": [[{"uid", "pts": [[x, y]..], "f": {name: [values]}}..]..], "ops": [..]}
@@ -1350,12 +1373,21 @@ class P(Prop):
             m.setdefault((c[1], c[0]), []).append(NAN if v == "nan" else float(v))
         return m, vals
 
-    def check_bands(self, geo, nodata, bands, tracks, cells, afs):
-        """every band whose name is <feature>#<one of the six operators> against the values located in each cell"""
+    def same_marker(self, got, want):
+        if want is None or got is None:
+            return got is None and want is None
+        return isinstance(got, (int, float)) and not isinstance(got, bool) and not isnan(got) and close(got, want, 1e-9)
+
+    def check_bands(self, geo, nodata, bands, tracks, cells, afs, also=(), only=None):
+        """every band whose name is <feature>#<one of the six operators> against the values located in each cell.
+        also: further no-data markers accepted in a cell WITHOUT a non-NaN value (min / max / mean / median only: count and sum hold 0
+        there) — used when the bands are read again after setNoDataValue: the statement says "the no-data value", the marker of the
+        call that wrote the band and the raster's current one both qualify; a cell WITH values never holds a marker.
+        only: the band names to look at (default: all)"""
         ncol, nrow = geo[4], geo[5]
         for name, g in bands:
             p = name.split("#")
-            if len(p) < 2 or p[1] not in OPS or p[0] not in afs:
+            if len(p) < 2 or p[1] not in OPS or p[0] not in afs or (only is not None and name not in only):
                 continue
             f, o = p[0], p[1]
             if g == "E" or len(g) != nrow or any(len(row) != ncol for row in g):
@@ -1375,9 +1407,11 @@ class P(Prop):
                         bad = got is not None
                     else:
                         bad = not isinstance(got, (int, float)) or isnan(got) or not close(got, want, 1e-9)
+                    if bad and also and o not in ("co_count", "co_sum") and not any(not isnan(v) for v in here):
+                        bad = not any(self.same_marker(got, m) for m in also)
                     if bad:
-                        return "%s[line %d][col %d] = %r, the values located there %s give %r (the raster's no-data value is %r)" % (
-                            name, l, c, got, here, want, nodata)
+                        return "%s[line %d][col %d] = %r, the values located there %s give %r (the raster's no-data value is %r%s)" % (
+                            name, l, c, got, here, want, nodata, "".join(", or %r" % (m,) for m in also))
         return None
 
     def check_values(self, geo, values, tracks, cells, afs):
@@ -1402,6 +1436,16 @@ class P(Prop):
                         return "values of %s kept in [line %d][col %d] = %s, the observations located there have %s" % (f, l, c, got, members.get((l, c), []))
         return None
 
+    def recheck_bands(self, geo, snap, done):
+        """the bands written by the last computeAggregates / summarize, read again after a call that is not meant to touch them"""
+        if done is None:
+            return None
+        m = self.check_bands(geo, done["nodata"], snap["bands"], done["tracks"], done["cells"], done["afs"],
+                             also=(done["nodata"], snap["nodata"]), only=done["names"])
+        if m:
+            return "(bands written by the last computeAggregates, read again after this call) " + m
+        return None
+
     def check_extent(self, box, mg, geo):
         wx, wy = box[1] - box[0], box[3] - box[2]
         for name, got, want, w in (("xmin", geo[0], box[0] - mg * wx, wx), ("xmax", geo[1], box[1] + mg * wx, wx),
@@ -1417,6 +1461,10 @@ class P(Prop):
             return "%d outcomes for %d calls" % (len(steps), len(case["ops"]))
         cur = None      # ghost of the current raster: {"res", "bands": names accepted so far}
         last = None     # what the last successful addCollectionToRaster scattered: {"k", "tracks" (as they were), "cells", "afs"}
+        done = None     # what the last successful computeAggregates / summarize wrote, as the oracle validated it: {"names": the bands
+                        # <feature>#<operator> it checked, "tracks", "cells", "afs", "nodata": the raster's marker at that call}; it stays
+                        # valid while the raster is only given other bands / another no-data value (addAFMap, setNoDataValue): the bands
+                        # are read AGAIN after each of those calls
         for i, (op, st) in enumerate(zip(case["ops"], steps)):
             kind, outc, snap = op[0], st["out"], st["snap"]
             where = "call %d %s: " % (i, json.dumps(op)[:120])
@@ -1436,7 +1484,7 @@ class P(Prop):
                 held = isinstance(snap["values"], dict) and any(cell for g in snap["values"].values() for row in g for cell in row)
                 if snap["bands"] or held:
                     return where + "a new raster has bands %s / values %s" % (snap["bands"], snap["values"])
-                cur, last = {"res": res, "bands": []}, None
+                cur, last, done = {"res": res, "bands": []}, None, None
                 continue
             if kind == "summarize":
                 _, k, afs, ops, res, mg, form = op
@@ -1445,7 +1493,7 @@ class P(Prop):
                 legit = (len(afs) > 0 and len(afs) == len(ops) and len(tracks) > 0 and all(t["pts"] for t in tracks)
                          and len(set(names)) == len(names) and all(o in OPS for o in ops) and all(a for a in afs)
                          and all(self.s_featvals(t, a) is not None for t in tracks for a in afs))
-                cur, last = None, None
+                cur, last, done = None, None, None
                 if not legit:
                     if outc == "ok" and snap is not None:
                         cur = {"res": res, "bands": [n for n, _ in snap["bands"]]}
@@ -1473,8 +1521,10 @@ class P(Prop):
                     return where + m
                 cur = {"res": res, "bands": list(names)}
                 last = {"k": k, "tracks": copy.deepcopy(tracks), "cells": loc, "afs": afs_set}
+                done = {"names": list(names), "tracks": last["tracks"], "cells": loc, "afs": afs_set, "nodata": snap["nodata"]}
                 continue
             if cur is None or snap is None:
+                done = None
                 if snap is not None:
                     cur, last = {"res": None, "bands": [n for n, _ in snap["bands"]]}, None
                 continue                                            # no raster the oracle knows about: nothing is demanded
@@ -1489,10 +1539,18 @@ class P(Prop):
                     if name not in [n for n, _ in snap["bands"]]:
                         return where + "band %r is not listed after addAFMap: %s" % (name, [n for n, _ in snap["bands"]])
                     cur["bands"].append(name)
+                    m = self.recheck_bands(geo, snap, done)
+                    if m:
+                        return where + m
                 continue
             if kind == "nodata":
                 if outc != "ok" or snap["nodata"] != self.pyval(op[1]):
                     return where + "no-data value %r after setNoDataValue(%r) (%s)" % (snap["nodata"], op[1], outc)
+                # the no-data value is a marker for the cells WITHOUT value: changing it leaves every aggregate of a cell with values,
+                # and the 0 of count / sum in the others, as they are (whatever they are equal to — the old marker included)
+                m = self.recheck_bands(geo, snap, done)
+                if m:
+                    return where + m
                 continue
             if kind == "add":
                 tracks = colls[op[1]]
@@ -1500,6 +1558,7 @@ class P(Prop):
                 obs = [p for t in tracks for p in t["pts"]]
                 legit = (cur["res"] is not None and all(self.s_featvals(t, a) is not None for t in tracks for a in afs)
                          and all(geo[0] <= p[0] <= geo[1] and geo[2] <= p[1] <= geo[3] for p in obs))
+                done = None                                         # the bands now describe a collection that is no longer the one on the raster
                 if not legit or outc != "ok":
                     last = None
                     if legit:
@@ -1523,16 +1582,20 @@ class P(Prop):
                 legit = last is not None and wf and all(n.split("#")[0] in last["afs"] for n in cur["bands"])
                 if legit and outc != "ok":
                     return where + "computeAggregates after a successful addCollectionToRaster, every band <feature>#<operator>, raised %s" % outc
+                done = None
                 if outc == "ok" and last is not None:
                     # the bands describe the collection LAST scattered on the raster (values as they were then; a raster that
                     # would read them at computeAggregates time is accepted too)
+                    used = last["tracks"]
                     m = self.check_bands(geo, snap["nodata"], snap["bands"], last["tracks"], last["cells"], last["afs"])
                     if m and colls[last["k"]] != last["tracks"] and all(
                             self.s_featvals(t, a) is not None for t in colls[last["k"]] for a in last["afs"]):
                         if self.check_bands(geo, snap["nodata"], snap["bands"], colls[last["k"]], last["cells"], last["afs"]) is None:
-                            m = None
+                            m, used = None, copy.deepcopy(colls[last["k"]])
                     if m:
                         return where + "(bands after computeAggregates, collection %d scattered last) " % last["k"] + m
+                    done = {"names": [n for n, g in snap["bands"] if g != "E"], "tracks": used, "cells": last["cells"], "afs": last["afs"],
+                            "nodata": snap["nodata"]}
                 continue
         return None
 
@@ -1602,7 +1665,7 @@ class P(Prop):
             if tpl != "summ-reuse":                                    # the raster is built on the study area itself
                 mg = rng.choice([0, 0, mg])
             pts = lambda n: self.walk(rng, mode, [ox, x1, oy, y1], res, mg, n) if n else []
-        tpl = tpl or rng.choice(["reuse", "reuse", "reuse", "summ-reuse", "summ-reuse", "late-band", "change", "errors", "soup", "soup", "two-rasters", "nodata", "nodata"])
+        tpl = tpl or rng.choice(["reuse", "reuse", "reuse", "summ-reuse", "summ-reuse", "late-band", "change", "errors", "soup", "soup", "two-rasters", "nodata", "nodata", "remark", "remark"])
         ncoll = rng.randrange(2, 4)
         colls = [self.s_coll(rng, mode, pts, 1 + 10 * k, empty_ok=(k > 0)) for k in range(ncoll)]
         # collection 0 has no empty track and spans the study area: a raster built on its bounding box contains the others
@@ -1686,6 +1749,12 @@ class P(Prop):
                 ops += [nodata(), ["compute"]]
             if rng.random() < 0.5:
                 ops += [["add", pick()]] + ([nodata()] if rng.random() < 0.5 else []) + [["band", self.s_band(rng, 0.0)], ["compute"]]
+        elif tpl == "remark":
+            # the no-data value changed AFTER the bands were computed (once, several times in a row, again after another pass), with
+            # markers that collide with genuine aggregates: 0 (the count / sum of every cell without value), small counts, -1, values
+            # the features take, the uid (min / max / mean / median of a uid band), the default marker, None
+            k = pick()
+            ops = self.remark_ops(rng, colls, k, new, res, mg, summ)
         elif tpl == "summ-reuse":
             ops = [summ(0)]
             for _ in range(rng.randrange(1, 3)):
@@ -1742,6 +1811,76 @@ class P(Prop):
                 else:
                     ops.append(nodata())
         return {"kind": "session", "mode": mode, "tpl": tpl, "colls": colls, "ops": ops}
+
+    def collide_pool(self, tracks):
+        """no-data markers that coincide with aggregates a raster of these tracks can hold"""
+        vs = [v for t in tracks for v in t["f"].get("v", []) if v != "nan"]
+        pool = [0.0, 0.0, 0.0, -1.0, -1.0, 1.0, 2.0, NO_DATA, "None"]
+        pool += [float(t["uid"]) for t in tracks[:1]]
+        pool += vs[:2] + ([math.fsum(vs)] if vs else [])
+        return pool
+
+    def remark_ops(self, rng, colls, k, new, res, mg, summ):
+        pool = self.collide_pool(colls[k])
+        mark = lambda: ["nodata", rng.choice(pool)]
+        if rng.random() < 0.35:
+            head = [summ(k)]                                         # the raster summarize() returns (marker NO_DATA_VALUE)
+        else:
+            new = list(new)
+            if rng.random() < 0.7:
+                new[4] = rng.choice(pool)
+            names = ["v#co_count", "v#co_sum"] + rng.sample(["v#co_min", "v#co_max", "v#co_avg", "v#co_median", "uid#co_min", "uid#co_count",
+                                                               "w#co_sum", "w#co_max", "x#co_min", "idx#co_sum"], rng.randrange(1, 4))
+            rng.shuffle(names)
+            names = names[:rng.randrange(2, len(names) + 1)]
+            head = [new] + [["band", n] for n in names] + [["add", k]] + ([mark()] if rng.random() < 0.2 else []) + [["compute"]]
+        ops = head + [mark() for _ in range(rng.randrange(1, 4))]
+        r = rng.random()
+        if r < 0.3:
+            ops += [["band", self.s_band(rng, 0.0)], mark()]
+        elif r < 0.6:
+            ops += [["compute"]] + [mark() for _ in range(rng.randrange(1, 3))]
+        elif r < 0.75:
+            ops += [["add", rng.randrange(0, len(colls))], ["compute"], mark()]
+        return ops
+
+    def remark_enum(self):
+        """every sequence of 1..3 calls from {setNoDataValue(0), setNoDataValue(1), setNoDataValue(-99999.0), setNoDataValue(None),
+        computeAggregates} on a raster whose bands have just been computed, for the constructor's novalue in {default, 0, 1, None}"""
+        c0 = [{"uid": 1, "pts": [[0, 0], [0.5, 0.5], [2, 2]], "f": {"v": [1.0, "nan", 0.0], "w": [2.0, -1.0, "nan"]}},
+              {"uid": 2, "pts": [[1.5, 0.5]], "f": {"v": [-99999.0], "w": [1.0]}}]
+        alpha = [["nodata", 0.0], ["nodata", 1.0], ["nodata", NO_DATA], ["nodata", "None"], ["compute"]]
+        for nov in (None, 0.0, 1.0, "None"):
+            head = [["new", [0, 2, 0, 2], [1, 1], 0, nov], ["band", "v#co_count"], ["band", "v#co_min"], ["band", "w#co_sum"], ["band", "w#co_avg"],
+                    ["add", 0], ["compute"]]
+            for n in (1, 2, 3):
+                for seq in itertools.product(alpha, repeat=n):
+                    yield {"kind": "session", "mode": "q", "tpl": "remark-enum", "colls": [c0], "ops": head + [list(o) for o in seq]}
+
+    def remark_variants(self, case, rng):
+        """neighbours of a session: setNoDataValue calls with colliding markers inserted after a computeAggregates / summarize"""
+        ops = case["ops"]
+        at = [i for i, o in enumerate(ops) if o[0] in ("compute", "summarize")]
+        if not at:
+            return
+        pool = self.collide_pool([t for c in case["colls"] for t in c])
+        for _ in range(4):
+            i = rng.choice(at)
+            ins = [["nodata", rng.choice(pool)] for _ in range(rng.randrange(1, 3))]
+            c = copy.deepcopy(case)
+            c["ops"] = ops[:i + 1] + ins + ops[i + 1:]
+            c["tpl"] = "remark-mut"
+            yield c
+        # ... and the constructor's own marker replaced by a colliding one
+        for j, o in enumerate(ops):
+            if o[0] == "new":
+                c = copy.deepcopy(case)
+                c["ops"][j][4] = rng.choice([0.0, -1.0, 1.0])
+                i = rng.choice([a for a in at if a > j] or at)
+                c["ops"] = c["ops"][:i + 1] + [["nodata", rng.choice(pool)]] + c["ops"][i + 1:]
+                c["tpl"] = "remark-mut"
+                yield c
+                break
 
     def session_enum(self, tier):
         """every sequence of calls from a small alphabet on a raster over [0,2]^2 with unit cells:
